@@ -26,26 +26,26 @@ NOTES = {
             'trusted: A0-A4; that derived PartialEq/Hash are functions of the digit array is assumption A4'),
     'C08': ('proof', 'Verus proves overflowing/checked/wrapping/saturating/strict pow for both signs with exact flags (square-and-multiply with ghost exact values) and the recursive integer logarithm with all ilog forms on the real bodies.',
             'trusted: A0-A4; assumed contracts listed in the evidence'),
-    'C09': ('proof', 'Verus proves same-digit casts (cast_up/cast_down, CastFrom between BUint/BInt of any widths, primitive <-> bnum loops) on the real bodies against value-mod-2^BITS contracts; casts between different digit types as far as the cross-digit unit reaches; everything else by bounded Kani harnesses against Rust `as`.',
+    'C09': ('proof', 'Verus proves same-digit casts (cast_up/cast_down, CastFrom between BUint/BInt of any widths, every primitive <-> bnum cast loop incl. usize/isize, bool, char) and the cross-digit CastFrom impls for all 12 ordered pairs of digit types on the real bodies against value-mod-2^BITS / sign-extension contracts; Kani harnesses against Rust `as` as bounded cross-check.',
             'trusted: A0-A4; the Kani part is bounded to the listed configurations and never counted as proved'),
-    'C10': ('proof', 'Verus proves the real from_buf_radix_internal (digit decoding, chunked multiply-accumulate, overflow exits) against the exact Ok/PosOverflow/InvalidDigit contract for every buffer length; string-level wrappers and signed forms by bounded Kani harnesses.',
-            'trusted: A0-A4, A7 (str::as_bytes / from_utf8 return the same bytes); see evidence for the radix classes proved and those only bounded'),
-    'C11': ('proof', 'Verus proves to_radix_digits_le, radix_base(_half), the to_radix_le/be dispatch and the signed delegations against a canonical-numeral contract with a uniqueness lemma; the bitwise digit generators (iterator adapters) and to_str_radix only by bounded Kani harnesses.',
-            'trusted: A0-A4; assume_specifications for u32::is_power_of_two and <[T]>::reverse; assumed contracts of to_bitwise_digits_le / to_inexact_bitwise_digits_le (Verus rejects array IntoIter and ref patterns) are covered by Kani only'),
-    'C13': ('proof', 'Verus part as for C09 (BTryFrom same digit, from_digits/digits/from_digit); primitive TryFrom/From and cross-digit BTryFrom by bounded Kani harnesses.',
-            'trusted: A0-A4; Kani part bounded'),
+    'C10': ('proof', 'Verus proves the real from_buf_radix_internal (digit decoding, chunked multiply-accumulate, power-of-two radix arm, overflow exits) against the exact Ok/PosOverflow/NegOverflow/InvalidDigit/Empty contract for every buffer length, every string-level wrapper, the signed forms, from_radix_be/le with exact panic sets, and FromStr::from_str for both signs (std trait method proved as an inherent twin, option wflift).',
+            'trusted: A0-A4, str::as_bytes / encode_utf8 agree (vstd); Kani harnesses are bounded cross-checks'),
+    'C11': ('proof', "Verus proves all three digit generators (to_radix_digits_le, to_bitwise_digits_le, to_inexact_bitwise_digits_le), radix_base(_half), the to_radix_le/be dispatch and the signed delegations against a canonical-numeral contract with a uniqueness lemma, unsigned to_str_radix down to the exact ASCII bytes, and the round-trip lemma against the parser's specification; signed to_str_radix: exact panic set and the text of non-negative values.",
+            'trusted: A0-A4; assume_specifications for u32::is_power_of_two, <[T]>::reverse and String::from_utf8_unchecked; rewrites R18/R19 (by-value array `for` loops, `while let Some(&0)`); still assumed and covered by Kani only: the u8-digit radix-256 branch of to_radix_le (`.map(closure).collect()`) and the `format!("-{}")` text of negative values'),
+    'C13': ('proof', 'Verus proves, on the real bodies, generic in N and for four digit types: BTryFrom between bnum integers of the same digit type and of all 12 ordered pairs of different digit types (Ok exactly when representable, same value), every From/TryFrom between the primitive integers (incl. usize/isize), bool, char and BUint/BInt in both directions (52 functions per digit type, weakest no-panic preconditions), and from_digits/digits/from_digit/From<[digit; N]>.',
+            'trusted: A0-A4, five is_negative assume_specifications; From<uN> for a signed BInt of exactly N bits reinterprets the bits - a recorded known finding: its contract states only what is true of the code (bit pattern; value when < 2^(BITS-1)) and the 12 Kani harnesses that demand more fail as KNOWN-FINDING; implicit index panics of From into a too narrow target are covered in the no-panic direction only'),
     'C14': ('proof', 'Verus proves, on the real extracted bodies and for every digit count N, the generic cast_float_from_uint<U,F> (round to nearest, ties to even, exact when the value fits the mantissa, +infinity once the rounded exponent reaches MAX_EXP) and cast_uint_from_float<F,U> (truncation toward zero, NaN to 0, saturation), the f32/f64 implementations of ConvertFloatParts/FloatCastHelper, the BUint glue impls and the eight CastFrom impls between BUint/BInt and f32/f64; contracts are stated over the IEEE-754 bit pattern of the float. Kani/CBMC harnesses (bit-precise floats, Rust\'s `as` as oracle) remain as bounded cross-check and for primitive-integer <-> float.',
             'trusted: f32/f64::{to_bits, from_bits, is_nan, is_infinite, is_sign_negative} mean what vstd::float says about the bit pattern, the float consts MANTISSA_DIGITS/MAX_EXP/MIN_EXP/INFINITY, float negation flips the sign bit, i32::try_from(u32) and u64 <</>> u32 (missing vstd specs); the spec bn_fc_u2f is the operational definition of round-half-even (lemma: nearest multiple of the ulp, even on ties), not derived from a real-number semantics of floats'),
     'C15': ('proof', 'Verus proves from_be_slice/from_le_slice for both signs (exact Some/None contract over the big/little-endian two\'s-complement value, every slice length) and to_be/from_be/to_le/from_le on the real bodies.',
             'trusted: A0-A4, the R14 wrappers around $D::from_be_bytes/from_le_bytes (trusted contract), assumed swap_bytes contract until its unit is in the closure; *_bytes (nightly feature) not covered'),
     'C16': ('proof', 'Constants: Verus proves every associated and digit-module constant initialiser (R3 form) denotes the advertised value. Digit independence: every value-level contract is stated over (BITS, signedness, value) only and is proved from the same overlay text for all four digit types; the check fails unless all four instantiations verify.',
             'trusted: A0-A4; cross-representation As casts are proved only as far as the cross-digit unit reaches (else bounded Kani)'),
-    'C17': ('proof', 'Verus verifies the operator/assign/reference trait impls as trait impls (vstd SpecImpl gives each its precondition = the inherent method\'s no-panic condition) with the inherent method\'s value-level postcondition; Sum/Product (iterator folds) by bounded Kani harnesses.',
+    'C17': ('proof', "Verus verifies the operator/assign/reference trait impls as trait impls (vstd SpecImpl gives each its precondition = the inherent method's no-panic condition) with the inherent method's value-level postcondition, must-panic duals for the by-value forms, the digit-operand forms, Default, PartialOrd/Ord for both signs (signed ones as inherent twins, option wflift) and FromStr; Sum/Product (Iterator::fold is rejected by this Verus and cannot be specified from outside vstd) by bounded Kani harnesses.",
             'trusted: A0-A4; see evidence for shapes left to Kani'),
-    'C18': ('proof', 'Verus proves the num_integer/num_traits method bodies on the real code (emitted as inherent methods because the external traits cannot be declared): Integer::{div_floor, mod_floor, div_rem, is_multiple_of, is_even, is_odd}, the binary gcd loop and lcm against a divisibility specification, Euclid/Signed/PrimInt/MulAdd and every Checked/Wrapping/Saturating/Overflowing forwarder with the contract of the inherent method it forwards to; sqrt/cbrt/nth_root only by bounded Kani harnesses.',
-            'trusted: A0-A4; Roots (closure-based Newton iteration over multi-digit division) is not decided by proof; the nth_root overflow above 128 bits is a recorded known finding'),
-    'C19': ('proof', 'Verus proves ToPrimitive::to_{u,i}{8..128} and FromPrimitive::from_{u,i}{8..128} on the real method bodies (emitted as inherent methods because the external traits cannot be declared): Some exactly when the value is representable, with the same numeric value, for every digit type and generic N; float conversions, usize/isize and AsPrimitive by bounded Kani harnesses (630 registered).',
-            'trusted: A0-A4; the float/usize/AsPrimitive part is bounded to the listed Kani configurations and never counted as proved'),
+    'C18': ('proof', 'Verus proves the num_integer/num_traits method bodies on the real code (emitted as inherent methods because the external traits cannot be declared): Integer::{div_floor, mod_floor, div_rem, is_multiple_of, is_even, is_odd}, the binary gcd loop and lcm against a divisibility specification, Euclid/Signed/PrimInt/MulAdd and every Checked/Wrapping/Saturating/Overflowing forwarder with the contract of the inherent method it forwards to, and Roots: the generic fixpoint iteration (contract over its closure), sqrt and cbrt as floor roots without overflow at any width, nth_root (dispatch, exact zeroth-root panic, Newton branch) and the signed wrappers with exact panic sets.',
+            "trusted: A0-A4; num_integer's u128::{sqrt,cbrt,nth_root} and u32::is_even (external crate) as stated stand-ins; nth_root's general branch is proved under a precondition that excludes exactly the overflow region of the recorded known finding (panic above 128 bits when (bits/n+1)(n-1) >= BITS)"),
+    'C19': ('proof', 'Verus proves ToPrimitive::to_{u,i}{8..128,size} and FromPrimitive::from_{u,i}{8..128,size} on the real method bodies (emitted as inherent methods because the external traits cannot be declared): Some exactly when the value is representable, with the same numeric value, for every digit type, generic N and usize of 32 and 64 bits at once; AsPrimitive::as_ in both directions for all integer types, char and bool equals the CastFrom contract; float conversions by bounded Kani harnesses.',
+            'trusted: A0-A4; from_f32/from_f64/to_f32/to_f64 and AsPrimitive<f32/f64> are bounded to the listed Kani configurations and never counted as proved (the float casts they forward to are proved under C14)'),
     'C20': ('proof', 'Verus proves range membership of the real UniformInt sampler bodies (RNG replaced by an arbitrary-value oracle, rewrite R15) and that the acceptance zone satisfies the hypothesis of the (proved) uniformity lemma; Fill/Standard by bounded Kani harnesses.',
             'trusted: A0-A4, A7 (termination of rejection loops not claimed; RNG = arbitrary oracle)'),
 }
